@@ -193,6 +193,18 @@ def main():
             for t in ts:
                 t.join(max(0.1, deadline - time.time()))
             res["hung"] = [i for i, t in enumerate(ts) if t.is_alive()]
+            if res["hung"]:
+                # structural evidence for the parent: where is each unfinished thread?
+                import linecache
+                frames = sys._current_frames()
+                res["hung_frames"] = []
+                for i in res["hung"]:
+                    fr = frames.get(ts[i].ident); top = None
+                    while fr is not None and top is None:
+                        if "/pyoda_time/" in fr.f_code.co_filename.replace("\\", "/"):
+                            top = [fr.f_code.co_filename.split("/pyoda_time/")[-1], fr.f_code.co_name, fr.f_lineno, linecache.getline(fr.f_code.co_filename, fr.f_lineno).strip()]
+                        fr = fr.f_back
+                    res["hung_frames"].append(top)
         finally:
             if inj: inj.stop()
         res["threads"] = outs
